@@ -434,11 +434,9 @@ def cat_case(rng):
                 shape='%s/%s/%s' % (form, q.split(' ')[1], 'ts' if rec.get('timeseries') else 'plain'))
 
 
-FIX_COMBOS = [''.join(b) for b in __import__('itertools').product('01', repeat=3)]     # ts, target, ns
+LIVE, FORMER = '1111', '0000'     # flags ts, target, ns, itype of Model/Catalog.lean: the code as it is / before the round-5 repairs
 
 
 def cat_lines(case):
-    """the driver lines of a case, one per variant of the model (all combinations of the repair flags that matter)"""
-    if case['kind'] == 'int':
-        return ['int 000%s %s' % (b, case['rest']) for b in '01']
-    return ['cat %s0 %s' % (c, case['rest']) for c in FIX_COMBOS]
+    """the driver lines of a case: the model of the code as it is, and of the former code (run only to pin the variant)"""
+    return ['%s %s %s' % (case['kind'], v, case['rest']) for v in (LIVE, FORMER)]
